@@ -7,16 +7,17 @@
      x/layer2/types/layer2.go        GetSpendingPoolLpDeposit / GetLpTokenSupply
    Definitions only.  The three [variant] bits say which of the defects found in the unchanged tree
    are present in the tree under test (the harness determines them with three probes); [as_is] is the
-   unchanged tree, [repaired] the tree with the patches of /verif/fixes applied. *)
+   tree before the repairs, [repaired] the tree with all patches of /verif/fixes applied. *)
 From Sekai Require Import Base.Prelude Base.Dec.
 
 Record variant := mkVariant {
   v_prefix : bool;            (* GetUserDappBonds iterates the raw key prefix name++..., and "" is a legal dApp name *)
   v_zero_blocks : bool;       (* ExecuteDappRemove sends zero-amount bond records (the send fails, nobody is refunded) *)
-  v_create_unchecked : bool   (* CreateDappProposal does not compare the creation bond with MaxDappBond *)
+  v_create_unchecked : bool;  (* CreateDappProposal does not compare the creation bond with MaxDappBond *)
+  v_convert_stale : bool      (* ConvertDappPoolTx swaps into the target record read BEFORE the redemption *)
 }.
-Definition as_is : variant := mkVariant true true true.
-Definition repaired : variant := mkVariant false false false.
+Definition as_is : variant := mkVariant true true true true.       (* the tree before any repair *)
+Definition repaired : variant := mkVariant false false false false.
 
 (* network properties used by the module *)
 Record config := mkConfig { c_min_raw : Z; c_max_raw : Z; c_duration : Z }.
@@ -216,12 +217,14 @@ Definition swap_k (d : dapp) (u : string) (foreign : bool) (b fee : Z) (st : sta
 
 (* PoolFee.Quo(sdk.NewDec(2)) *)
 Definition half_fee (fee : Z) : outcome Z := dquo fee (dec_of_int 2).
-(* ConvertDappPoolTx: both records are read before the redemption; the second one is not re-read *)
-Definition convert_k (d1 d2 : dapp) (u den : string) (x : Z) (st : state) : outcome (state * Z) :=
+(* ConvertDappPoolTx: both records are read before the redemption; the stale variant does not re-read the second *)
+Definition convert_k (v : variant) (d1 d2 : dapp) (u den : string) (x : Z) (st : state) : outcome (state * Z) :=
   do f1 <- half_fee (d_fee d1);
   do r <- redeem_k d1 u den x f1 st;
-  do f2 <- half_fee (d_fee d2);
-  swap_k d2 u false (snd r) f2 (fst r).
+  let d2' := if v_convert_stale v then d2
+             else match find_dapp (d_name d2) (dapps (fst r)) with Some d => d | None => d2 end in
+  do f2 <- half_fee (d_fee d2');
+  swap_k d2' u false (snd r) f2 (fst r).
 
 (* ---------------------------------------------------------------- operations *)
 Inductive op : Type :=
@@ -249,7 +252,7 @@ Definition step (v : variant) (c : config) (st : state) (o : op) : outcome state
       match get_dapp n st with None => Err "no dapp" | Some d => do r <- redeem_k d u den amt fee st; Ok (fst r) end
   | KConvert u n n2 den amt =>
       match get_dapp n st, get_dapp n2 st with
-      | Some d1, Some d2 => do r <- convert_k d1 d2 u den amt st; Ok (fst r)
+      | Some d1, Some d2 => do r <- convert_k v d1 d2 u den amt st; Ok (fst r)
       | _, _ => Err "no dapp" end
   end.
 (* transaction semantics: a failed message (error or panic) leaves no trace *)
